@@ -89,12 +89,34 @@ HiInRange(l, d) == HiLimbsOK(l) /\ ~HiLimbLt(l, HiLimbsOfPow2(2 * d + 3)) /\ HiL
 HiDiv4(l) == <<l[1] \div 4, (l[1] % 4) * 1048576 + l[2] \div 4, (l[2] % 4) * 1048576 + l[3] \div 4>>
 HiMul4Add(l, x) == <<l[1] * 4 + l[2] \div 1048576, (l[2] % 1048576) * 4 + l[3] \div 1048576, (l[3] % 1048576) * 4 + x>>
 
+\* ---- representations of the arguments ------------------------------------------------------------
+\* A call may carry   rep : Seq(<<argument name, representation>>)   - how each array (or scalar) argument was
+\* handed over.  The allowed RESULT never depends on it: every representation below carries exactly the same
+\* numbers (the harness picks positions that the element type holds exactly).  What may depend on it is only
+\* whether the call may be REFUSED with an exception: the statement is silent about 2-d arrays, about reverse
+\* indices that are not native int64 arrays, and about non-float scalars for intersect - a clean rejection is
+\* accepted there, a wrong result or a crash of the interpreter never is.
+\*   layouts   "contig" "strided" (every 2nd element) "recfield12" "recfield20" (field of a packed record: odd
+\*             strides, unaligned) "reversed" (negative stride) "twod_row" (1,n) "twod_col" (n,1) "zerod" (n = 1)
+\*   types     "be" (non-native byte order) "f4" "i4" "i8" "u8" "list" "tuple" "npscalar" "pyscalar" (n = 1)
+\*   scalars   "pyfloat" "npfloat64" "npfloat32" "npint" "longdouble" "zerod" "onearray"  (intersect)
+HiRepTwoD   == {"twod_row", "twod_col"}
+HiRepRejectablePair(a, x) ==
+    \/ x \in HiRepTwoD
+    \/ (a = "htmrev2" /\ x \in {"be", "i4", "u8", "list", "tuple"})
+    \/ (a \in {"c_ra", "c_dec", "c_radius"} /\ x # "pyfloat")
+HiRepRejectable(rp) == \E k \in DOMAIN rp : HiRepRejectablePair(rp[k][1], rp[k][2])
+HiRepOf(x) == IF "rep" \in DOMAIN x THEN x.rep ELSE <<>>
+\* what an exception / a crash means for a call made with representation rp
+HiErrFailing(err, rp) == IF err = "CRASH" THEN {"interpreter_crash"}
+                         ELSE IF HiRepRejectable(rp) THEN {} ELSE {"unexpected_error"}
+
 \* ---- lookup_id ---------------------------------------------------------------------------
 \* record  [kind |-> "lookup", err : STRING, depths : Seq(Nat) (increasing),
 \*          ids : Seq(limbs)  the point's element of an ARRAY call, one per depth,
 \*          sids : Seq(limbs) what the SCALAR call returned, one per depth]
 LookupFailing(r) ==
-    IF r.err # "none" THEN {"unexpected_error"}
+    IF r.err # "none" THEN HiErrFailing(r.err, HiRepOf(r))
     ELSE IF Len(r.ids) # Len(r.depths) \/ Len(r.sids) # Len(r.depths) THEN {"result_shape"}
     ELSE LET dg == [k \in DOMAIN r.ids |-> HiDigits(r.ids[k])] IN
          (IF \A k \in DOMAIN dg : IdValid(dg[k], r.depths[k]) THEN {} ELSE {"id_out_of_range"}) \cup
@@ -120,7 +142,7 @@ CoverProjectionOK(r) ==
     r.listed => /\ r.cin = HiMember(r.cid, r.incl)
                 /\ \A k \in DOMAIN r.probes : r.pin[k] = HiMember(r.pid[k], r.incl) /\ r.pfull[k] = HiMember(r.pid[k], r.full)
 CoverFailing(r) ==
-    IF r.err # "none" THEN {"unexpected_error"}
+    IF r.err # "none" THEN HiErrFailing(r.err, HiRepOf(r))
     ELSE IF Len(r.pid) # Len(r.probes) \/ Len(r.pin) # Len(r.probes) \/ Len(r.pfull) # Len(r.probes) THEN {"MACHINERY_shape"}
     ELSE IF ~CoverProjectionOK(r) THEN {"MACHINERY_projection"}
     ELSE (IF IdValid(HiDigits(r.cid), r.depth) /\ \A k \in DOMAIN r.pid : IdValid(HiDigits(r.pid[k]), r.depth)
@@ -168,7 +190,7 @@ PMayOf(r, t)  == [b \in 0..(PNBin(r) - 1) |-> Cardinality({pr \in DOMAIN t : b \
 PBelowOf(r, t) == \E pr \in DOMAIN t : t[pr] = {-1} /\ ~HiSame(r.lat, r.p1[pr[1]], r.p2[pr[2]])
 
 PObsFailingT(r, o, must, may, below) ==
-    IF o.err # "none" THEN {"unexpected_error"}
+    IF o.err # "none" THEN HiErrFailing(o.err, HiRepOf(o))
     ELSE IF Len(o.counts) # PNBin(r) THEN {"counts_length"}
     ELSE LET low  == {b \in 0..(PNBin(r) - 1) : o.counts[b + 1] < must[b]}
              high == {b \in 0..(PNBin(r) - 1) : o.counts[b + 1] > may[b]}
